@@ -8,9 +8,14 @@ OUT=/verif/seeded/$NAME
 mkdir -p $OUT
 cp $WT/_out/* $OUT/ 2>/dev/null
 cd $WT
-# bring the worktree to /repo's HEAD, keeping the seeded change
+# bring the worktree to /repo's HEAD, keeping the seeded change (library diff re-applied on the new base)
 HEAD=$(git -C /repo rev-parse HEAD)
-if [ "$(git rev-parse HEAD)" != "$HEAD" ]; then git stash -q -u && git checkout -q --detach $HEAD && git stash pop -q || echo "REBASE-CONFLICT"; fi
+if [ "$(git rev-parse HEAD)" != "$HEAD" ]; then
+  git diff > /tmp/seed-p-$$.diff
+  git checkout -q -f --detach $HEAD && (git apply --3way /tmp/seed-p-$$.diff 2>/dev/null || git apply /tmp/seed-p-$$.diff) || echo "REBASE-CONFLICT"
+  git reset -q 2>/dev/null
+  rm -f /tmp/seed-p-$$.diff
+fi
 DEMO=$(python3 -c "import json;print(json.load(open('_out/meta.json'))['demo_cmd'])")
 echo "== build";  go build ./... && B=ok || B=FAIL
 echo "== existing tests with change (demo moved aside)"
@@ -27,8 +32,9 @@ for P in "$@"; do
   for TIER in quick; do
     R=$(cd /verif && VERIF_REPO=$WT timeout 3000 python3 tools/vcheck $P --tier $TIER 2>&1 | grep -E "VIOLATION|INCONCLUSIVE|$P $TIER" | head -4)
     RC=$(echo "$R" | grep -c VIOLATION)
+    IC=$(echo "$R" | grep -c INCONCLUSIVE)
     echo "-- $P $TIER: violations_lines=$RC"; echo "$R" | tail -2 | cut -c1-250
-    RES="$RES $P/$TIER=$( [ $RC -gt 0 ] && echo caught || echo missed )"
+    RES="$RES $P/$TIER=$( [ $IC -gt 0 ] && echo inconclusive || ([ $RC -gt 0 ] && echo caught || echo missed) )"
     (cd /verif && git checkout -q evidence/$P.json 2>/dev/null)
   done
 done
